@@ -26,7 +26,12 @@ RULE = ("programs = FHDL modules converted and executed on both sides (packed gr
         "programs, real cores); grammar fragments are evaluated on ALL values of their inputs (evaluations = fragment x "
         "input valuation pairs compared, resp. product transitions for sequential programs); a fragment is distinct by "
         "its label within its configuration and non-trivial when its observed targets took >= 2 different values over "
-        "the run (measured); disagreements_checked = (observation, input/trace) disagreements classified S/S_w/V/V_unb")
+        "the run (measured); sequential / memory programs and real cores are explored as the lock-step product (S_A, S_B): "
+        "BFS from reset under every letter of the input alphabet (grammar programs: all input values; cores: all combinations "
+        "of up to 7 one-bit inputs x 3 data patterns, all values when the inputs total <= 12 bits) and every clock choice, to "
+        "closure or the transition cap (caps_hit), then for cores one deterministic corner-value walk (walk_cycles); a state "
+        "is distinct by its full (registers, memory words) valuation on both sides; "
+        "disagreements_checked = (observation, input/trace) disagreements classified S/S_w/V/V_unb")
 ASSUMPTIONS = [
     "Verilog semantics = vlog, an interpreter of IEEE 1364-2005 written for this task (sizing/typing from §5.4-5.5, "
     "event semantics of always @(*) from §9.7.5); no third-party simulator exists in the sandbox; 81 hand-computed "
@@ -294,8 +299,12 @@ def extra_coverage(results):
             classes[k] = classes.get(k, 0) + v
     return dict(programs=tot("programs"), disagreements_checked=tot("disagreements"), fragments=tot("fragments"),
                 traces_validated_against_impl=tot("conformed"), disagreement_classes=classes,
-                vlog_selftest_cases=selftest(),
-                const_only_always_blocks=tot("const_only_always_blocks"))
+                vlog_selftest_cases=selftest(), walk_cycles=tot("walk_cycles"),
+                mismatching_transitions=tot("mismatching_transitions"),
+                unsupported_programs=[r["cfg"] for r in results if r.get("unsupported")],
+                const_only_always_blocks=tot("const_only_always_blocks"),
+                explanation="translation validation of litex.gen.fhdl.verilog.convert against LiteX's own simulator semantics; "
+                            "states/transitions count the product exploration part, evaluations/distinct_nontrivial the whole run")
 
 
 def replay(rec):
